@@ -9,16 +9,22 @@ package dnsforward
 import (
 	"context"
 	"fmt"
+	"math/big"
 	"net"
 	"net/netip"
+	"sort"
 	"strings"
 	"testing"
+	"testing/fstest"
 	"time"
 
+	"github.com/AdguardTeam/AdGuardHome/internal/aghnet"
+	"github.com/AdguardTeam/AdGuardHome/internal/aghtest"
 	"github.com/AdguardTeam/AdGuardHome/internal/arpdb"
 	"github.com/AdguardTeam/AdGuardHome/internal/client"
 	"github.com/AdguardTeam/AdGuardHome/internal/filtering"
 	"github.com/AdguardTeam/AdGuardHome/internal/filtering/rulelist"
+	"github.com/AdguardTeam/AdGuardHome/internal/filtering/safesearch"
 	"github.com/AdguardTeam/AdGuardHome/internal/querylog"
 	"github.com/AdguardTeam/AdGuardHome/internal/schedule"
 	"github.com/AdguardTeam/dnsproxy/proxy"
@@ -39,6 +45,22 @@ type plClient struct {
 	UseOwnSvc bool
 	Svcs      []string
 	SvcPaused bool
+	SafeSearch bool
+	Tags       []string // sorted
+}
+
+// plRewrite is a legacy rewrite as configured.
+type plRewrite struct{ Dom, Ans string }
+
+// plHostsLine is one line of the hosts file.
+type plHostsLine struct {
+	IP    string
+	Names []string
+}
+
+type plLease struct {
+	Host string
+	IP   string
 }
 
 type plCfg struct {
@@ -64,7 +86,27 @@ type plCfg struct {
 	// repeat mode: the model has no cache, it states that a repeated
 	// question gets the verdict of a fresh one).
 	CacheOn bool
+
+	// round 2
+	Rewrites   []plRewrite   // legacy rewrites
+	HostsOn    bool          // a hosts-file container is configured
+	Hosts      []plHostsLine // its lines
+	SafeSearch bool          // the global safe-search switch (the filter itself is always installed)
+	DDR        bool
+	DDRHasIP   bool
+	DDRDoH     []int
+	DDRDoT     []int
+	DDRDoQ     []int
+	DHCPOn     bool
+	Leases     []plLease
+	DNS64      bool
+	// SBHost / ParHost may be host names (resolved through the upstream).
+	hosts *aghnet.HostsContainer
 }
+
+const plLocalSuffix = "lan"
+
+var plDNS64Prefix = netip.MustParsePrefix("64:ff9b::/96")
 
 // plServices is the (fixed) table of test services registered next to the
 // built-in ones.
@@ -103,7 +145,113 @@ func plBlockHostCoq(h string) string {
 	if h == "" {
 		return "BHEmpty"
 	}
-	return vfApp("BHAddr", vfAddrCoq(netip.MustParseAddr(h)))
+	if a, err := netip.ParseAddr(h); err == nil {
+		return vfApp("BHAddr", vfAddrCoq(a))
+	}
+	return vfApp("BHName", vfBytes(h))
+}
+
+// plArpaNames: the reverse names in play for a configuration.
+func (c *plCfg) arpaNames() (names []string) {
+	seen := map[string]bool{}
+	add := func(ip string) {
+		a, err := netip.ParseAddr(ip)
+		if err != nil {
+			return
+		}
+		n, err := dns.ReverseAddr(a.String())
+		if err != nil {
+			return
+		}
+		n = strings.TrimSuffix(n, ".")
+		if !seen[n] {
+			seen[n] = true
+			names = append(names, n)
+		}
+	}
+	for _, l := range c.Hosts {
+		add(l.IP)
+	}
+	for _, l := range c.Leases {
+		add(l.IP)
+	}
+	add("10.9.8.7")
+	return names
+}
+
+func (c *plCfg) ddrIDs() (ids []string) {
+	for _, p := range c.DDRDoH {
+		ids = append(ids, vfN(uint64(p*4+1)))
+	}
+	if c.DDRHasIP {
+		for _, p := range c.DDRDoT {
+			ids = append(ids, vfN(uint64(p*4+2)))
+		}
+	}
+	for _, p := range c.DDRDoQ {
+		ids = append(ids, vfN(uint64(p*4+3)))
+	}
+	return ids
+}
+
+// round2Coq renders the round-2 fields of cfg.
+func (c *plCfg) round2Coq() []string {
+	var rws []string
+	for _, r := range c.Rewrites {
+		p := vfOpt("addr", false, "")
+		if a, err := netip.ParseAddr(r.Ans); err == nil {
+			p = vfOpt("addr", true, vfAddrCoq(a))
+		}
+		rws = append(rws, vfApp("mk_rw", vfBytes(r.Dom), vfBytes(r.Ans), p))
+	}
+	var byName, byAddr, arpa []string
+	if c.HostsOn && c.hosts != nil {
+		seenN, seenA := map[string]bool{}, map[netip.Addr]bool{}
+		for _, l := range c.Hosts {
+			for _, n := range l.Names {
+				n = strings.ToLower(n)
+				if seenN[n] {
+					continue
+				}
+				seenN[n] = true
+				var as []string
+				for _, a := range c.hosts.ByName(n) {
+					as = append(as, vfAddrCoq(a))
+				}
+				byName = append(byName, vfPair(vfBytes(n), vfList("addr", as)))
+			}
+			a := netip.MustParseAddr(l.IP)
+			if !seenA[a] {
+				seenA[a] = true
+				byAddr = append(byAddr, vfPair(vfAddrCoq(a), vfBytesList(c.hosts.ByAddr(a))))
+			}
+		}
+	}
+	for _, n := range c.arpaNames() {
+		if a, err := netutil.IPFromReversedAddr(n); err == nil {
+			arpa = append(arpa, vfPair(vfBytes(n), vfAddrCoq(a)))
+		}
+	}
+	ddr := vfOpt("list N", false, "")
+	if c.DDR {
+		ddr = vfOpt("list N", true, vfList("N", c.ddrIDs()))
+	}
+	var dh, da []string
+	for _, l := range c.Leases {
+		dh = append(dh, vfPair(vfBytes(l.Host), vfAddrCoq(netip.MustParseAddr(l.IP))))
+		da = append(da, vfPair(vfAddrCoq(netip.MustParseAddr(l.IP)), vfBytes(l.Host)))
+	}
+	d64 := vfOpt("N", false, "")
+	if c.DNS64 {
+		b := plDNS64Prefix.Addr().As16()
+		d64 = vfOpt("N", true, new(big.Int).SetBytes(b[:]).String()+"%N")
+	}
+	return []string{
+		vfList("Rewrites.entry", rws), vfBool(c.HostsOn),
+		vfList("bytes * list addr", byName), vfList("addr * list bytes", byAddr), vfList("bytes * addr", arpa),
+		vfBool(c.SafeSearch), ddr, vfBool(c.DHCPOn), vfBytes(plLocalSuffix),
+		vfList("bytes * addr", dh), vfList("addr * bytes", da), d64,
+	}
 }
 
 func plNRulesCoq(rs []*vfRule) string {
@@ -121,10 +269,11 @@ func (c *plCfg) Coq() string {
 	for i, s := range plServices {
 		tbl[i] = vfPair(vfBytes(s.ID), plNRulesCoq(s.Rules))
 	}
-	return vfApp("mkCfg", vfBool(c.ProtEnabled), deadline, vfBool(c.Filtering), vfBool(c.SB), vfBool(c.Par),
+	args := []string{vfBool(c.ProtEnabled), deadline, vfBool(c.Filtering), vfBool(c.SB), vfBool(c.Par),
 		plModeCoq(c.Mode), vfAddrCoq(c.IP4), vfAddrCoq(c.IP6), vfN(uint64(c.TTL)), vfBool(c.AAAADisabled),
 		vfBytesList(c.Svcs), vfBool(c.SvcPaused), vfList("bytes * list nrule", tbl),
-		plBlockHostCoq(c.SBHost), plBlockHostCoq(c.ParHost))
+		plBlockHostCoq(c.SBHost), plBlockHostCoq(c.ParHost)}
+	return vfApp("mkCfg", append(args, c.round2Coq()...)...)
 }
 
 func (c *plCfg) BlockRules() []*vfRule { return append(append([]*vfRule{}, c.Custom...), c.Block...) }
@@ -142,7 +291,7 @@ func (c *plCfg) clientFor(addr netip.Addr) *plClient {
 
 func (p *plClient) Coq() string {
 	return vfApp("mkPClient", vfBytes(p.Name), vfBool(p.UseOwn), vfBool(p.Filtering), vfBool(p.SB), vfBool(p.Par),
-		vfBool(p.UseOwnSvc), vfBytesList(p.Svcs), vfBool(p.SvcPaused))
+		vfBool(p.UseOwnSvc), vfBytesList(p.Svcs), vfBool(p.SvcPaused), vfBool(p.SafeSearch), vfBytesList(p.Tags))
 }
 
 func (c *plCfg) Desc() map[string]any {
@@ -153,6 +302,10 @@ func (c *plCfg) Desc() map[string]any {
 		"blocked_services": c.Svcs, "services_paused": c.SvcPaused,
 		"custom_rules": vfRuleTexts(c.Custom), "block_list": vfRuleTexts(c.Block), "allow_list": vfRuleTexts(c.Allow),
 		"sb_hosts": c.SBHosts, "parental_hosts": c.ParHosts, "clients": c.Clients, "proxy_cache": c.CacheOn,
+		"sb_block_host": c.SBHost, "parental_block_host": c.ParHost,
+		"rewrites": c.Rewrites, "hosts_file": c.Hosts, "hosts_on": c.HostsOn, "safe_search": c.SafeSearch,
+		"ddr": c.DDR, "ddr_ports": []any{c.DDRDoH, c.DDRDoT, c.DDRDoQ, c.DDRHasIP},
+		"dhcp": c.DHCPOn, "leases": c.Leases, "dns64": c.DNS64,
 	}
 }
 
@@ -196,7 +349,12 @@ type plServer struct {
 	ups *plUpstream
 	ql  *plQueryLog
 	cfg *plCfg
+	ss  *safesearch.Default
 }
+
+// plSafeSearchConf: the services whose rules the (always installed)
+// safe-search filter holds.
+var plSafeSearchConf = filtering.SafeSearchConfig{Enabled: true, Google: true, Yandex: true, Bing: true, DuckDuckGo: true}
 
 func plWeekly(paused bool) *schedule.Weekly {
 	if paused {
@@ -229,6 +387,8 @@ func plNewServer(t *testing.T, c *plCfg) *plServer {
 			ParentalEnabled:       pc.Par,
 			UseOwnBlockedServices: pc.UseOwnSvc,
 			BlockedServices:       &filtering.BlockedServices{Schedule: plWeekly(pc.SvcPaused), IDs: pc.Svcs},
+			SafeSearchConf:        filtering.SafeSearchConfig{Enabled: pc.SafeSearch},
+			Tags:                  append([]string{}, pc.Tags...),
 		}
 		for _, ip := range pc.IPs {
 			p.IPs = append(p.IPs, netip.MustParseAddr(ip))
@@ -268,6 +428,42 @@ func plNewServer(t *testing.T, c *plCfg) *plServer {
 		BlockedServices:        &filtering.BlockedServices{Schedule: plWeekly(c.SvcPaused), IDs: c.Svcs},
 		DataDir:                t.TempDir(),
 		ConfigModified:         func() {},
+		SafeSearchConf:         filtering.SafeSearchConfig{Enabled: c.SafeSearch},
+		SafeSearchCacheSize:    1000,
+		CacheTime:              30,
+	}
+	ss, err := safesearch.NewDefault(context.Background(), &safesearch.DefaultConfig{
+		Logger:         slogutil.NewDiscardLogger(),
+		ServicesConfig: plSafeSearchConf,
+		CacheSize:      1000,
+		CacheTTL:       30 * time.Minute,
+	})
+	if err != nil {
+		t.Fatalf("safesearch: %v", err)
+	}
+	fconf.SafeSearch = ss
+	for _, r := range c.Rewrites {
+		fconf.Rewrites = append(fconf.Rewrites, &filtering.LegacyRewrite{Domain: r.Dom, Answer: r.Ans})
+	}
+	if c.HostsOn {
+		var b strings.Builder
+		for _, l := range c.Hosts {
+			b.WriteString(l.IP + " " + strings.Join(l.Names, " ") + "\n")
+		}
+		files := fstest.MapFS{"hosts": &fstest.MapFile{Data: []byte(b.String())}}
+		watcher := &aghtest.FSWatcher{
+			OnStart:  func() (_ error) { panic("not implemented") },
+			OnEvents: func() (e <-chan struct{}) { return nil },
+			OnAdd:    func(name string) (err error) { return nil },
+			OnClose:  func() (err error) { return nil },
+		}
+		hc, herr := aghnet.NewHostsContainer(files, watcher, "hosts")
+		if herr != nil {
+			t.Fatalf("hosts container: %v", herr)
+		}
+		t.Cleanup(func() { _ = hc.Close() })
+		c.hosts = hc
+		fconf.EtcHosts = hc
 	}
 	switch c.Deadline {
 	case 1:
@@ -293,9 +489,23 @@ func plNewServer(t *testing.T, c *plCfg) *plServer {
 	ql := &plQueryLog{}
 	s, err := NewServer(DNSCreateParams{
 		DHCPServer: &testDHCP{
-			OnEnabled:  func() (ok bool) { return false },
-			OnHostByIP: func(ip netip.Addr) (host string) { return "" },
-			OnIPByHost: func(host string) (ip netip.Addr) { return netip.Addr{} },
+			OnEnabled: func() (ok bool) { return c.DHCPOn },
+			OnHostByIP: func(ip netip.Addr) (host string) {
+				for _, l := range c.Leases {
+					if netip.MustParseAddr(l.IP) == ip {
+						return l.Host
+					}
+				}
+				return ""
+			},
+			OnIPByHost: func(host string) (ip netip.Addr) {
+				for _, l := range c.Leases {
+					if l.Host == host {
+						return netip.MustParseAddr(l.IP)
+					}
+				}
+				return netip.Addr{}
+			},
 		},
 		DNSFilter:   f,
 		QueryLog:    ql,
@@ -325,8 +535,27 @@ func plNewServer(t *testing.T, c *plCfg) *plServer {
 	ups := &plUpstream{}
 	s.conf.UpstreamConfig.Upstreams = []upstream.Upstream{ups}
 	t.Cleanup(func() { f.Close() })
+	if c.DDR {
+		s.conf.HandleDDR = true
+		s.conf.TLSConf.ServerName = "dns.vf.example"
+		s.hasIPAddrs = c.DDRHasIP
+		for _, p := range c.DDRDoH {
+			s.conf.TLSConf.HTTPSListenAddrs = append(s.conf.TLSConf.HTTPSListenAddrs, &net.TCPAddr{Port: p})
+		}
+		for _, p := range c.DDRDoT {
+			s.dnsProxy.TLSListenAddr = append(s.dnsProxy.TLSListenAddr, &net.TCPAddr{Port: p})
+		}
+		for _, p := range c.DDRDoQ {
+			s.dnsProxy.QUICListenAddr = append(s.dnsProxy.QUICListenAddr, &net.UDPAddr{Port: p})
+		}
+	} else {
+		s.conf.HandleDDR = false
+	}
+	if c.DNS64 {
+		s.dns64Pref = plDNS64Prefix
+	}
 
-	return &plServer{s: s, ups: ups, ql: ql, cfg: c}
+	return &plServer{s: s, ups: ups, ql: ql, cfg: c, ss: ss}
 }
 
 // ---- records and responses
@@ -365,6 +594,27 @@ func plRRCoq(rr dns.RR) string {
 		data = vfApp("DAAAA", plTAddr(v.AAAA, false))
 	case *dns.CNAME:
 		data = vfApp("DCNAME", vfBytes(v.Target))
+	case *dns.PTR:
+		data = vfApp("DPTR", vfBytes(v.Ptr))
+	case *dns.SVCB:
+		// the DDR records: identified by protocol and port
+		kind, port := 0, 0
+		for _, kv := range v.Value {
+			switch x := kv.(type) {
+			case *dns.SVCBAlpn:
+				switch strings.Join(x.Alpn, ",") {
+				case "h2":
+					kind = 1
+				case "dot":
+					kind = 2
+				case "doq":
+					kind = 3
+				}
+			case *dns.SVCBPort:
+				port = int(x.Port)
+			}
+		}
+		data = vfApp("DOther", vfN(uint64(dns.TypeSVCB)), vfN(uint64(port*4+kind)))
 	case *dns.HTTPS:
 		var ps []string
 		for _, kv := range v.Value {
@@ -430,6 +680,14 @@ func plReasonCoq(r filtering.Reason) string {
 		return "FilteredParental"
 	case filtering.FilteredBlockedService:
 		return "FilteredBlockedService"
+	case filtering.FilteredSafeSearch:
+		return "FilteredSafeSearch"
+	case filtering.Rewritten:
+		return "RewrittenLegacy"
+	case filtering.RewrittenAutoHosts:
+		return "RewrittenAutoHosts"
+	case filtering.RewrittenRule:
+		return "RewrittenRule"
 	default:
 		return "NotFilteredNotFound (* unmodelled reason " + r.String() + " *)"
 	}
@@ -443,6 +701,12 @@ type plQuery struct {
 	Addr  netip.Addr
 	// Answer is the scripted upstream answer (nil = upstream error).
 	Answer *dns.Msg
+	// Extra scripts answers for other question names (lower-case FQDN; a nil
+	// message = upstream error): rewrite targets, the block page.
+	Extra map[string]*dns.Msg
+	// Private / RDNS are what dnsproxy computes for the request.
+	Private bool
+	RDNS    netip.Prefix
 }
 
 type plObs struct {
@@ -454,19 +718,27 @@ type plObs struct {
 	Result   *filtering.Result
 	OrigKept bool
 	Question dns.Question // question of the request after processing
+	ResQName string       // question name inside the delivered message
 }
 
 func (ps *plServer) run(q *plQuery) (o plObs) {
 	ps.ups.calls = nil
 	ps.ql.adds = nil
-	ps.ups.answer = func(dns.Question) (*dns.Msg, error) {
+	ps.ups.answer = func(uq dns.Question) (*dns.Msg, error) {
+		if m, ok := q.Extra[strings.ToLower(uq.Name)]; ok {
+			if m == nil {
+				return nil, fmt.Errorf("scripted upstream failure")
+			}
+			return m, nil
+		}
 		if q.Answer == nil {
 			return nil, fmt.Errorf("scripted upstream failure")
 		}
 		return q.Answer, nil
 	}
 	req := createTestMessageWithType(q.Name, q.QType)
-	pctx := &proxy.DNSContext{Proto: proxy.ProtoUDP, Req: req, Addr: netip.AddrPortFrom(q.Addr, 5353)}
+	pctx := &proxy.DNSContext{Proto: proxy.ProtoUDP, Req: req, Addr: netip.AddrPortFrom(q.Addr, 5353),
+		IsPrivateClient: q.Private, RequestedPrivateRDNS: q.RDNS}
 	func() {
 		defer func() { o.Panic = recover() }()
 		o.Err = ps.s.handleDNSRequest(nil, pctx)
@@ -474,6 +746,10 @@ func (ps *plServer) run(q *plQuery) (o plObs) {
 	o.Res = pctx.Res
 	o.Calls = append([]dns.Question{}, ps.ups.calls...)
 	o.Question = req.Question[0]
+	o.ResQName = q.Name
+	if pctx.Res != nil && len(pctx.Res.Question) > 0 {
+		o.ResQName = pctx.Res.Question[0].Name
+	}
 	if len(ps.ql.adds) > 0 {
 		o.Logged = true
 		last := ps.ql.adds[len(ps.ql.adds)-1]
@@ -499,11 +775,60 @@ func plResultCoq(r *filtering.Result) string {
 	for _, rr := range r.Rules {
 		rules = append(rules, vfPair("0%N", vfOptAddrCoq(rr.IP)))
 	}
-	return vfApp("mkResult", plReasonCoq(r.Reason), vfBool(r.IsFiltered), vfBytes(r.ServiceName), vfList("N * option addr", rules))
+	var ips []string
+	for _, a := range r.IPList {
+		ips = append(ips, vfAddrCoq(a))
+	}
+	drw := vfOpt("drwresult", false, "")
+	if d := r.DNSRewriteResult; d != nil {
+		var types []int
+		for ty := range d.Response {
+			types = append(types, int(ty))
+		}
+		sort.Ints(types)
+		var vals []string
+		for _, ty := range types {
+			for _, v := range d.Response[uint16(ty)] {
+				var vc string
+				switch x := v.(type) {
+				case netip.Addr:
+					vc = vfApp("VAddr", vfAddrCoq(x))
+				case string:
+					vc = vfApp("VName", vfBytes(x))
+				case nil:
+					vc = "VNil"
+				default:
+					vc = "VNil (* unmodelled value *)"
+				}
+				vals = append(vals, vfPair(vfN(uint64(ty)), vc))
+			}
+		}
+		drw = vfOpt("drwresult", true, vfApp("mkDRW", vfN(uint64(d.RCode)), vfList("N * rrvalue", vals)))
+	}
+	return vfApp("mkResult", plReasonCoq(r.Reason), vfBool(r.IsFiltered), vfBytes(r.ServiceName), vfList("N * option addr", rules),
+		vfBytes(r.CanonName), vfList("addr", ips), drw)
+}
+
+// plSSCoq asks the (real) safe-search filter for its verdict on the query's
+// host and type: the oracle of the model.
+func (ps *plServer) plSSCoq(q *plQuery) string {
+	host := strings.ToLower(strings.TrimSuffix(q.Name, "."))
+	var items []string
+	if host != "" {
+		res, err := ps.ss.CheckHost(context.Background(), host, q.QType)
+		if err == nil && res.Reason == filtering.FilteredSafeSearch {
+			v := vfApp("SSCname", vfBytes(res.CanonName))
+			if len(res.Rules) > 0 && res.Rules[0].IP != (netip.Addr{}) {
+				v = vfApp("SSAddr", vfAddrCoq(res.Rules[0].IP))
+			}
+			items = append(items, "("+vfBytes(host)+", "+vfN(uint64(q.QType))+", "+v+")")
+		}
+	}
+	return vfList("bytes * N * ssverdict", items)
 }
 
 // plCaseCoq renders the whole case for Run/PipeCase.v.
-func plCaseCoq(c *plCfg, q *plQuery, o *plObs) string { return plCaseCoqAs("CPipe", c, q, o) }
+func plCaseCoq(ps *plServer, q *plQuery, o *plObs) string { return plCaseCoqAs("CPipe", ps, q, o) }
 
 // reloadFilters loads the configuration's current rule lists into the engines.
 func (ps *plServer) reloadFilters(t *testing.T) {
@@ -516,13 +841,32 @@ func (ps *plServer) reloadFilters(t *testing.T) {
 	}
 }
 
-func plCaseCoqAs(ctor string, c *plCfg, q *plQuery, o *plObs) string {
+func plCaseCoqAs(ctor string, ps *plServer, q *plQuery, o *plObs) string {
+	c := ps.cfg
 	cl := c.clientFor(q.Addr)
 	clCoq := vfOpt("pclient", cl != nil, "")
 	if cl != nil {
 		clCoq = vfOpt("pclient", true, cl.Coq())
 	}
-	reqCoq := vfApp("mkRequest", vfBytes(q.Name), vfN(uint64(q.QType)), vfAddrCoq(q.Addr), clCoq)
+	rdns := vfOpt("addr", false, "")
+	if q.RDNS != (netip.Prefix{}) {
+		rdns = vfOpt("addr", true, vfAddrCoq(q.RDNS.Addr()))
+	}
+	reqCoq := vfApp("mkRequest", vfBytes(q.Name), vfN(uint64(q.QType)), vfAddrCoq(q.Addr), clCoq, vfBool(q.Private), rdns)
+	var extra []string
+	var extraNames []string
+	for n := range q.Extra {
+		extraNames = append(extraNames, n)
+	}
+	sort.Strings(extraNames)
+	for _, n := range extraNames {
+		m := q.Extra[n]
+		e := vfOpt("resp", m != nil, "")
+		if m != nil {
+			e = vfOpt("resp", true, plRespCoq(m))
+		}
+		extra = append(extra, vfPair(vfBytes(n), e))
+	}
 	up := vfOpt("resp", q.Answer != nil, "")
 	if q.Answer != nil {
 		up = vfOpt("resp", true, plRespCoq(q.Answer))
@@ -531,9 +875,10 @@ func plCaseCoqAs(ctor string, c *plCfg, q *plQuery, o *plObs) string {
 	if o.Res != nil {
 		res = vfOpt("resp", true, plRespCoq(o.Res))
 	}
-	obs := vfApp("mkOutcome", res, plCallsCoq(o.Calls), plResultCoq(o.Result), vfBool(o.OrigKept), vfBool(o.Logged))
+	obs := vfApp("mkOutcome", res, plCallsCoq(o.Calls), plResultCoq(o.Result), vfBool(o.OrigKept), vfBool(o.Logged), vfBytes(o.ResQName))
 	return vfApp(ctor, c.Coq(), vfRulesCoq(c.Allow), vfRulesCoq(c.BlockRules()),
-		vfBytesList(c.SBHosts), vfBytesList(c.ParHosts), reqCoq, up, obs)
+		vfBytesList(c.SBHosts), vfBytesList(c.ParHosts), ps.plSSCoq(q), reqCoq,
+		vfList("bytes * option resp", extra), up, obs)
 }
 
 // ---- the synthetic answer of a blocking mode, stated independently
@@ -747,6 +1092,9 @@ func plEffective(c *plCfg, q *plQuery) (protection, filteringOn, sb, par bool, s
 // plHostVerdict: +2 the host is plainly on the allow list, +1 the host must be blocked by rule lists, -1 no rule list,
 // service, safe-browsing or parental entry concerns it, 0 no claim.
 func plHostVerdict(c *plCfg, q *plQuery, host string) int {
+	if c.round2() {
+		return 0
+	}
 	protection, filteringOn, sb, par, svcs := plEffective(c, q)
 	if !protection {
 		return -1
@@ -810,6 +1158,27 @@ func plHostVerdict(c *plCfg, q *plQuery, host string) int {
 		return 0
 	}
 	return -1
+}
+
+// round2 reports whether a feature of round 2 is switched on: the plain
+// reference verdicts make no claim then.
+func (c *plCfg) round2() bool {
+	if len(c.Rewrites) > 0 || c.HostsOn || c.SafeSearch || c.DDR || c.DHCPOn {
+		return true
+	}
+	for _, cl := range c.Clients {
+		if cl.SafeSearch || len(cl.Tags) > 0 {
+			return true
+		}
+	}
+	for _, rs := range [][]*vfRule{c.Custom, c.Block, c.Allow} {
+		for _, r := range rs {
+			if r.Drw != "" || len(r.CtPerm)+len(r.CtRestr) > 0 {
+				return true
+			}
+		}
+	}
+	return false
 }
 
 // ---- generators
@@ -935,5 +1304,194 @@ func plIPsOfResult(res *filtering.Result) (ips []netip.Addr) {
 		}
 	}
 	return ips
+}
+
+
+// ---- round 2 generators
+
+// plShortNames: names whose rule patterns have a shortcut below five bytes,
+// so that their rules sit in urlfilter's sequential-scan table and come out
+// of MatchAll in list order (the order DNSRewrites() works on).
+var plShortNames = []string{"r.io", "s.io", "t.io"}
+
+var plXNames = []string{"a.test", "b.a.test", "x.test", "xa.test", "r.io", "w.r.io", "s.io", "t.io", "h.test",
+	"kid.lan", "tv.lan", "nobody.lan", "www.google.com", "yandex.ru", "_dns.resolver.arpa", "block.page"}
+
+func plGenDrwRule(r *vfRand, id int) *vfRule {
+	nr := &vfRule{ID: id, Pattern: vfPick(r, []string{"||%s^", "|%s^", "%s^", "||%s^"})}
+	nr.Pattern = strings.Replace(nr.Pattern, "%s", vfPick(r, plShortNames), 1)
+	switch r.Intn(8) {
+	case 0:
+		// a plain rule on the same names
+		nr.White = r.Chance(1, 3)
+		nr.Important = r.Chance(1, 4)
+		return nr
+	case 1:
+		nr.Drw, nr.DrwRcode = "rcode", vfPick(r, []int{dns.RcodeRefused, dns.RcodeNameError, dns.RcodeServerFailure})
+	case 2:
+		nr.Drw, nr.DrwRcode, nr.DrwLong = "rcode", 0, r.Bool()
+	case 3:
+		nr.Drw, nr.DrwName, nr.DrwLong = "cname", vfPick(r, []string{"x.test", "b.a.test", "r.io", "s.io"}), r.Bool()
+	default:
+		nr.Drw, nr.DrwLong = "addr", r.Bool()
+		nr.DrwAddr = netip.MustParseAddr(vfPick(r, []string{"192.0.2.60", "192.0.2.61", "2001:db8::60"}))
+	}
+	nr.White = r.Chance(1, 4)
+	nr.Important = r.Chance(1, 5)
+	if r.Chance(1, 8) {
+		nr.DTPerm = []uint16{vfPick(r, []uint16{dns.TypeA, dns.TypeAAAA})}
+	}
+	return nr
+}
+
+// plGenCfgX draws a configuration with the round-2 features switched on.
+func plGenCfgX(r *vfRand) *plCfg {
+	c := plGenCfg(r, vfNames)
+	if r.Chance(3, 4) {
+		c.ProtEnabled, c.Deadline, c.Filtering = true, 0, true
+	}
+	if r.Chance(1, 2) {
+		n := 1 + r.Intn(3)
+		for i := 0; i < n; i++ {
+			dom := vfPick(r, []string{"a.test", "x.test", "*.a.test", "b.a.test", "ghost.lan", "r.io", "*.xa.test"})
+			ans := vfPick(r, []string{"192.0.2.55", "2001:db8::55", "x.test", "b.a.test", "xa.test", "A", "AAAA", "a.test"})
+			c.Rewrites = append(c.Rewrites, plRewrite{dom, ans})
+		}
+	}
+	if r.Chance(1, 2) {
+		n := 1 + r.Intn(4)
+		for i := 0; i < n; i++ {
+			c.Custom = append(c.Custom, plGenDrwRule(r, 50+i))
+		}
+	}
+	if r.Chance(1, 4) {
+		tags := []string{"device_pc", "user_child"}
+		for i := 0; i < 2; i++ {
+			nr := &vfRule{ID: 70 + i, Pattern: "||" + vfPick(r, vfNames) + "^", White: r.Chance(1, 4)}
+			if r.Bool() {
+				nr.CtPerm = []string{vfPick(r, tags)}
+			} else {
+				nr.CtRestr = []string{vfPick(r, tags)}
+			}
+			c.Block = append(c.Block, nr)
+		}
+		if len(c.Clients) == 0 {
+			c.Clients = []plClient{{Name: "pc", IPs: []string{"10.0.0.1"}}}
+		}
+		c.Clients[0].Tags = [][]string{{"device_pc"}, {"device_pc", "user_child"}, {"user_child"}}[r.Intn(3)]
+	}
+	if r.Chance(1, 3) {
+		c.HostsOn = true
+		n := r.Intn(4)
+		used := map[string]bool{}
+		for i := 0; i < n; i++ {
+			ip := vfPick(r, []string{"192.0.2.70", "2001:db8::70", "::ffff:192.0.2.71", "10.9.8.7"})
+			name := vfPick(r, []string{"h.test", "a.test", "x.test", "r.io"})
+			if used[ip+name] {
+				continue
+			}
+			used[ip+name] = true
+			c.Hosts = append(c.Hosts, plHostsLine{ip, []string{name}})
+		}
+	}
+	if r.Chance(1, 4) {
+		c.SafeSearch = true
+	} else if r.Chance(1, 6) && len(c.Clients) > 0 {
+		c.Clients[0].UseOwn, c.Clients[0].SafeSearch = true, true
+	}
+	if c.SB && r.Chance(1, 2) {
+		c.SBHost = "block.page"
+	}
+	if c.Par && r.Chance(1, 2) {
+		c.ParHost = "block.page"
+	}
+	if r.Chance(1, 4) {
+		c.DDR, c.DDRHasIP = true, r.Bool()
+		c.DDRDoH = [][]int{nil, {8044}, {443, 8443}}[r.Intn(3)]
+		c.DDRDoT = [][]int{nil, {853}}[r.Intn(2)]
+		c.DDRDoQ = [][]int{nil, {8853}}[r.Intn(2)]
+	}
+	if r.Chance(1, 3) {
+		c.DHCPOn = !r.Chance(1, 6)
+		c.Leases = []plLease{{"kid", "192.168.1.5"}}
+		if r.Bool() {
+			c.Leases = append(c.Leases, plLease{"tv", "192.168.1.6"})
+		}
+		c.DNS64 = r.Chance(1, 3)
+		if r.Chance(1, 2) {
+			c.Block = append(c.Block, &vfRule{ID: 180, Pattern: "||" + vfPick(r, []string{"kid.lan", "nobody.lan", "lan"}) + "^"})
+		}
+	}
+	return c
+}
+
+// plGenQueryX draws a question (and the scripted answers) for a round-2 configuration.
+func plGenQueryX(r *vfRand, c *plCfg) *plQuery {
+	name := vfMixCase(r, vfPick(r, plXNames)) + "."
+	if strings.EqualFold(name, "_dns.resolver.arpa.") && r.Chance(2, 3) {
+		name = "_dns.resolver.arpa."
+	}
+	qt := vfPick(r, []uint16{dns.TypeA, dns.TypeA, dns.TypeAAAA, dns.TypeHTTPS, dns.TypeTXT, dns.TypeSVCB})
+	q := &plQuery{Name: name, QType: qt, Addr: netip.MustParseAddr(vfPick(r, plClientAddrs)), Private: !r.Chance(1, 5)}
+	if r.Chance(1, 8) {
+		// a reverse question, sometimes one dnsproxy marks as private
+		ip := vfPick(r, []string{"192.168.1.5", "192.168.1.6", "192.168.1.9", "192.0.2.70", "10.9.8.7"})
+		rev, _ := dns.ReverseAddr(ip)
+		q.Name, q.QType = rev, dns.TypePTR
+		// dnsproxy marks reverse questions for private addresses; one that the
+		// DHCP stage does not answer goes to dnsproxy's private upstreams
+		// (none here: dnsproxy answers NXDOMAIN itself, outside the model),
+		// so only leased addresses are marked
+		for _, l := range c.Leases {
+			if l.IP == ip && r.Chance(3, 4) {
+				q.RDNS = netip.PrefixFrom(netip.MustParseAddr(ip), 32)
+			}
+		}
+	}
+	q.Answer = c01AnswerX(r, q.Name, q.QType)
+	q.Extra = map[string]*dns.Msg{}
+	for _, n := range []string{"x.test.", "b.a.test.", "xa.test.", "a.test.", "r.io.", "s.io.", "forcesafesearch.google.com.", "block.page."} {
+		if strings.EqualFold(n, q.Name) {
+			continue
+		}
+		if r.Chance(1, 10) {
+			q.Extra[n] = nil
+			continue
+		}
+		q.Extra[n] = plMsg(dns.RcodeSuccess, plA(n, 77, "198.51.100.7"), plA(n, 78, vfPick(r, []string{"1.2.3.4", "198.51.100.8"})))
+	}
+	return q
+}
+
+func c01AnswerX(r *vfRand, name string, qt uint16) *dns.Msg {
+	switch qt {
+	case dns.TypeA:
+		return plMsg(dns.RcodeSuccess, plA(name, 300, "93.184.216.34"))
+	case dns.TypeAAAA:
+		return plMsg(dns.RcodeSuccess, plAAAA(name, 300, "2606:2800:220:1::1"))
+	case dns.TypeHTTPS:
+		return plMsg(dns.RcodeSuccess, plHTTPS(name, 300, []string{"93.184.216.34"}, nil, true))
+	case dns.TypeTXT:
+		return plMsg(dns.RcodeSuccess, plTXT(name, 300, "v=spf1 -all"))
+	default:
+		if r.Chance(1, 3) {
+			return plMsg(dns.RcodeNameError)
+		}
+		return plMsg(dns.RcodeSuccess)
+	}
+}
+
+// plIsDHCPHostQuestion mirrors the documented condition: DHCP on, an A/AAAA
+// question for an immediate subdomain of the local domain.
+func plIsDHCPHostQuestion(c *plCfg, q *plQuery) bool {
+	if !c.DHCPOn || (q.QType != dns.TypeA && q.QType != dns.TypeAAAA) {
+		return false
+	}
+	h := strings.ToLower(strings.TrimSuffix(q.Name, "."))
+	if !strings.HasSuffix(h, "."+plLocalSuffix) {
+		return false
+	}
+	label := strings.TrimSuffix(h, "."+plLocalSuffix)
+	return label != "" && !strings.Contains(label, ".")
 }
 
